@@ -343,9 +343,13 @@ def r05e(ctx):
         w.sort(key=lambda x: x.lineno)
         tests[name] = (f, w[0] if w else None)
     if all(v[1] is not None for v in tests.values()):
-        a, b = (ast.unparse(v[1].test).replace(" ", "").replace("(", "").replace(")", "") for v in tests.values())
+        def shape(wn):
+            recv = next((dotted(c.func.value) for c in ast.walk(wn.test) if isinstance(c, ast.Call)
+                         and isinstance(c.func, ast.Attribute) and c.func.attr == "tighten_bounds"), "edit")
+            return ast.unparse(wn.test).replace(" ", "").replace("(", "").replace(")", "").replace(recv + ".", "E.")
+        a, b = (shape(v[1]) for v in tests.values())
         f, w = tests["get_all_edit_contexts"]
-        want = "edit.validandnotedit.is_completeandedit.tighten_bounds"
+        want = "E.validandnotE.is_completeandE.tighten_bounds"
         if a == b == want:
             ctx.proved("R05e", f.file, "TreeNode.get_all_edit_contexts", w, "driver loops agree", f"both drivers loop while `{norm(w.test)}`")
         else:
